@@ -43,7 +43,65 @@ func accVerdict(c *hx.Ctx, what string, o oracle.Outcome, got hx.State, p int64,
 	}
 }
 
+// c02QuoTopPrecision: one inexact quotient of small integers per run into a receiver whose precision lies in the last
+// 40 below MaxPrec (about 3.5 GB and ten seconds: the division works by the precision). The quotient n/d with d = 3, 7 or 9
+// never terminates: the result must fill the precision (MinPrec = Prec), be Below or Above as the mode says, and start
+// with the right digits.
+func c02QuoTopPrecision(c *hx.Ctx, r *hx.RNG) {
+	p := uint(maxPrec - r.Range(0, 40))
+	if r.Bool() {
+		p = uint(maxPrec - r.Range(0, 19))
+	}
+	den := int64([]int{3, 7, 9}[r.Intn(3)])
+	num := int64(r.Range(1, int(den)-1))
+	if den == 9 && num%3 == 0 {
+		num = 1
+	}
+	mode := r.Mode()
+	what := fmt.Sprintf("Quo(%d, %d) prec=%d mode=%s", num, den, p, oracle.ModeNames[mode])
+	c.Note(what)
+	z := new(decimal.Decimal).SetPrec(p).SetMode(decimal.RoundingMode(mode))
+	x, y := new(decimal.Decimal).SetInt64(num), new(decimal.Decimal).SetInt64(den)
+	pi := hx.Try(func() { z.Quo(x, y) })
+	c.Eval(hx.HashStr(what), true, "Quo/precision-next-to-MaxPrec")
+	if pi != nil {
+		c.Violate("panic", fmt.Sprintf("%s: %s panic %q at %s", what, pi.Class, pi.Text, pi.Stack), "")
+		return
+	}
+	up := mode == oracle.AwayFromZero || mode == oracle.ToPositiveInf
+	if mode == oracle.ToNearestEven || mode == oracle.ToNearestAway {
+		// 0.1 <= n/d < 1 and its digits repeat from the first one with period 1 (d = 3, 9) or 6 (d = 7): the digit after
+		// the last kept one decides (never a tie: the digits go on)
+		frac := new(big.Int).Quo(new(big.Int).Mul(big.NewInt(num), oracle.Pow10(12)), big.NewInt(den)).String() // 12 digits
+		period := map[int64]uint64{3: 1, 9: 1, 7: 6}[den]
+		up = frac[uint64(p)%period] >= '5'
+	}
+	wantAcc := -1
+	if up {
+		wantAcc = 1
+	}
+	if uint64(z.Prec()) != uint64(p) || z.IsInf() || z.IsZero() || z.Signbit() {
+		c.Violate("wrong-value", fmt.Sprintf("%s: stored a value of class/precision %v/%d", what, z.IsInf(), z.Prec()), "")
+		return
+	}
+	mp := uint64(z.MinPrec())
+	if int(z.Acc()) != wantAcc || (mp != uint64(p) && !(up && mp < uint64(p))) {
+		c.Violate("wrong-acc", fmt.Sprintf("%s: Acc()=%d, want %d; the result holds %d significant digits (a non-terminating quotient fills the precision)", what, z.Acc(), wantAcc, mp), "")
+		return
+	}
+	// leading digits (read from the top mantissa word: formatting would copy 1.8 GB)
+	bm, be := z.BitsExp()
+	wantTop := new(big.Int).Quo(new(big.Int).Mul(big.NewInt(num), oracle.Pow10(19)), big.NewInt(den)).Uint64()
+	if len(bm) == 0 || be != 0 || uint64(bm[len(bm)-1]) != wantTop {
+		c.Violate("wrong-value", fmt.Sprintf("%s: exponent %d, %d mantissa words, top word %v (want exponent 0, top word %d)", what, be, len(bm), bm[maxI(len(bm)-1, 0):], wantTop), "")
+	}
+}
+
 func c02Case(c *hx.Ctx, r *hx.RNG, idx int64) {
+	if idx%4000000 == 31 {
+		c02QuoTopPrecision(c, r)
+		return
+	}
 	l := hx.LimitsFor(c.Tier)
 	if r.Chance(55) {
 		c02Arith(c, r, l)
